@@ -1,4 +1,5 @@
 import A2lVerif.Lemmas.Include
+import A2lVerif.Lemmas.TreeSkip
 import A2lVerif.Lemmas.IncludeWriter
 /-!
 # C16 (tokenizer part) — `/include` resolution is plain inline expansion
@@ -463,3 +464,29 @@ example : addGroup [⟨['a'], some ['1']⟩, ⟨['b'], some ['2']⟩, ⟨['c'], 
     [.directive ['1'], .directive ['2'], .element ['d']] := by decide
 
 end A2l.IncW
+
+/-! # C16 (parser / writer) — a comment that comes from an include file is not written into the main file
+
+After fix b3e6c00 the generated parser marks a comment by the file of its own token (`Model/Tree.lean`, `parseTagged`:
+`included := tok.fileid ≠ 0`); the writer skips such comments. Before the fix the mark came from the enclosing block, and
+a comment of an include file at MODULE level was written into the main file on every save (and read back twice). -/
+namespace A2l.Tree
+
+/-- the comment arm of the tagged loop stores the file mark of the comment TOKEN -/
+theorem comment_mark_is_token_file (fuel : Nat) (ctx : Ctx) (arms : List G.Arm) (ch : List (List Val)) (cm : List Cmt)
+    (e : Env) (s : PState) (tok : PTok) (off : Nat)
+    (h : getNextTagOrComment ctx e s = .ok (.comment tok off) { s with pos := s.pos + 1 }) :
+    parseTagged (fuel + 1) ctx arms true ch cm e s =
+      parseTagged fuel ctx arms true ch (⟨tok.text, ctx.line, s.seqId + 1, off, tok.fileid ≠ 0⟩ :: cm) e
+        { s with pos := s.pos + 1, seqId := s.seqId + 1 } := by
+  rw [parseTagged, bind_def, h]
+  rfl
+
+/-- the writer skips a comment that is marked as included: nothing is written for it, and the line-comment flag is
+    passed on unchanged -/
+theorem included_comment_not_written (indent : Nat) (alc : Bool) (item : TagInfo) (rest : List TagInfo)
+    (hc : item.isComment = true) (hi : item.included = true) :
+    addGroupGo indent alc (item :: rest) = addGroupGo indent alc rest := by
+  simp [addGroupGo, hc, hi]
+
+end A2l.Tree
